@@ -1243,13 +1243,20 @@ package bpmn
 //@   count(Spawn, code("(*Process).ceaseFlowMonitor$1")) == old(count(Spawn, code("(*Process).ceaseFlowMonitor$1")))
 
 //@ func (*startEvent).Trigger
-//@   prop C02
+//@   prop C02 C07
 //@   ensures [queues-one-start-message-last] isSend(ev(evlen - 1)) && evch(ev(evlen - 1)) == evt.mch && is(evval(ev(evlen - 1)), startMessage)
 //@   ensures [its-goroutine-is-started-at-most-once] count(Spawn, code("(*startEvent).run")) <= old(count(Spawn, code("(*startEvent).run"))) + 1
+//@   ensures [a-sender-is-registered-only-together-with-the-goroutine-that-releases-it] old(oncedone(mu(evt.once))) ==>
+//@             count(Call, code("tracing|ITracer.RegisterSender")) == old(count(Call, code("tracing|ITracer.RegisterSender"))) &&
+//@             count(Spawn, code("(*startEvent).run")) == old(count(Spawn, code("(*startEvent).run")))
+//@   ensures [a-first-trigger-registers-exactly-one-sender] !old(oncedone(mu(evt.once))) ==>
+//@             count(Call, code("tracing|ITracer.RegisterSender")) == old(count(Call, code("tracing|ITracer.RegisterSender"))) + 1
 //@   ensures startFrame() && noMonitorStarted()
 //@ func (*throwEvent).Trigger
-//@   prop C02
+//@   prop C02 C07
 //@   ensures [queues-one-start-message-last] isSend(ev(evlen - 1)) && evch(ev(evlen - 1)) == evt.mch && is(evval(ev(evlen - 1)), startMessage)
+//@   ensures [a-sender-is-registered-only-together-with-the-goroutine-that-releases-it] old(oncedone(mu(evt.once))) ==>
+//@             count(Call, code("tracing|ITracer.RegisterSender")) == old(count(Call, code("tracing|ITracer.RegisterSender")))
 //@   ensures startFrame() && noMonitorStarted()
 
 // Triggering a start event starts the completion monitor with the first one only (sync.Once): the monitor takes the
